@@ -9,6 +9,8 @@ import DesyncModel.Lemmas
 import DesyncModel.Setters
 import DesyncModel.Inv.DrainReach
 import DesyncModel.Inv.SlotReach
+import DesyncModel.Inv.DoneWaker
+import DesyncModel.Props.C07
 
 namespace Desync.C08
 open Desync Gen
@@ -88,5 +90,22 @@ theorem operation_starts_in_its_slot {s : State} (hr : Reachable s) {u : Nat} {s
     ∃ (j : Nat) (jb : Job) (r : Nat), s.jobs[j]? = some jb ∧ jb.kind = JobKind.slot u r ∧ jb.begun = true ∧
       ∀ (j1 : Nat) (b1 : Job), s.jobs[j1]? = some b1 → b1.q = jb.q → j1 < j → b1.ended = true :=
   future_sync_starts_in_its_slot hr hu hb
+
+/-- **The slot is released on the right object**: in every reachable state the waker the slot job of `future_sync` has left on the
+`task_finished` channel is the `WakeQueue` waker of *the sync-future's own queue*, a `WakeThread` waker for that queue, or a
+latch (`DoneOk`: inductive over all program counters and environment steps; the slot job of sync-future `u` sits in `u`'s queue
+— `KindInv` — and the context polling it works for that queue — the job invariant of C01).  So when the user's future completes,
+or the `SyncFuture` is dropped and its sender with it, the wake-up reaches the queue that holds the slot. -/
+theorem slot_completion_wakes_the_futures_own_queue {s : State} (hr : Reachable s) {u : Nat} {sf : SyncFut} {w : Waker}
+    (hu : s.sfs[u]? = some sf) (hw : sf.doneWaker = some w) :
+    w = .queue sf.q ∨ (∃ t, w = .thread sf.q t) ∨ (∃ l, w = .latch l) := by
+  have h := doneOk_reachable hr u sf w hu hw
+  cases w <;> simp_all [Waker.forQ]
+
+/-- the slot job of a sync-future is a job of the sync-future's queue, and signals a future of that queue -/
+theorem slot_job_sits_in_its_sync_futures_queue {s : State} (hr : Reachable s) {j u r : Nat} {jb : Job}
+    (hj : s.jobs[j]? = some jb) (hk : jb.kind = .slot u r) :
+    (∃ fu, s.futs[r]? = some fu ∧ fu.q = jb.q) ∧ (∃ sf, s.sfs[u]? = some sf ∧ sf.q = jb.q) :=
+  (C07.job_futures_belong_to_the_jobs_queue hr hj).2.2.1 u r hk
 
 end Desync.C08
